@@ -74,6 +74,83 @@ func mk[K comparable, W any](k K, w W) Pair[K, W] { return Pair[K, W]{k, w} }
 
 func two(a, b int) (int, int) { return b + 1, a - 1 }
 
+func (s *S) incr() int { s.a++; return s.a }
+
+func bumpInt(p *int) { *p += 1 }
+
+// a copy taken before a store and a call keeps the old value
+func snapStruct(k int) (S, int) {
+	var c S
+	c.a = k
+	before := c
+	c.a = k + 5
+	return before, c.incr()
+}
+
+func snapPlain(k int) (S, int) {
+	var c S
+	c.a = k
+	return c, c.incr()
+}
+
+func snapInt(k int) (int, int) {
+	var o int
+	v := o
+	o = k
+	bumpInt(&o)
+	return v, o
+}
+
+func snapArr(k int) (S, S, int) {
+	var s S
+	empty := s
+	s.c[2] = k
+	n := s.incr()
+	return empty, s, n
+}
+
+func sumv(base int, xs ...int) int {
+	for i, x := range xs {
+		base += x * (i + 1)
+	}
+	return base + len(xs)
+}
+
+func fact(n int) int {
+	if n <= 1 {
+		return 1
+	}
+	return n * fact(n-1)
+}
+
+func fibm(n int, memo *[16]int) int {
+	if n < 2 {
+		return n
+	}
+	if memo[n&15] != 0 {
+		return memo[n&15]
+	}
+	r := fibm(n-1, memo) + fibm(n-2, memo)
+	memo[n&15] = r
+	return r
+}
+
+type Pt struct{ x, y int }
+
+type Seg struct {
+	a, b Pt
+	tag  [2]int8
+}
+
+func divmod(a, b int) (q, r int) {
+	if b == 0 {
+		return
+	}
+	q = a / b
+	r = a % b
+	return
+}
+
 func seq(n int) func(func(int, int) bool) {
 	return func(yield func(int, int) bool) {
 		for i := 0; i < n; i++ {
@@ -340,8 +417,8 @@ class Gen:
             self.emit(ind, "%s := func(g func(int) int, n int) int { if n <= 0 { return g(n) }; return g(n) + g(n-1) }" % f)
             self.emit(ind, "sink(%s(func(q int) int { return q*q - %s }, %s & 7))" % (f, cap, self.expr(vs, 2)))
 
-    def feature(self, ind, vs):
-        k = self.r.randrange(10)
+    def feature(self, ind, vs, k=None):
+        k = self.r.randrange(17) if k is None else k
         a = self.expr(vs, 1)
         b = self.expr(vs, 1)
         if k == 0:
@@ -420,6 +497,61 @@ class Gen:
             self.emit(ind + 1, "k, arr[k] = 2, 50")
             self.emit(ind + 1, "sink(arr[0] + arr[2]*3 + k + x - y + z)")
             self.emit(ind, "}")
+        elif k == 9:
+            # locals declared inside a loop body are fresh (zero) in every iteration
+            i = self.fresh("i")
+            self.emit(ind, "for %s := 0; %s < 3; %s++ {" % (i, i, i))
+            self.emit(ind + 1, "var fl [4]int")
+            self.emit(ind + 1, "var st S")
+            self.emit(ind + 1, "ps := &st")
+            self.emit(ind + 1, "fl[(%s+(%s))&3] += %s + 1" % (i, a, i))
+            self.emit(ind + 1, "ps.c[%s%%3] += 2" % i)
+            self.emit(ind + 1, "ps.a += %s" % i)
+            self.emit(ind + 1, "sink(fl[0] + fl[1]*3 + fl[2]*5 + fl[3]*7 + st.Sum())")
+            self.emit(ind, "}")
+        elif k == 10:
+            self.emit(ind, "{")
+            self.emit(ind + 1, "s1, n1 := snapStruct(%s & 255)" % a)
+            self.emit(ind + 1, "s2, n2 := snapPlain(%s & 255)" % b)
+            self.emit(ind + 1, "v3, o3 := snapInt(%s & 255)" % a)
+            self.emit(ind + 1, "e4, s4, n4 := snapArr(%s & 255)" % b)
+            self.emit(ind + 1, "sink(s1.a*3 + n1 + s2.a*5 + n2 + v3*7 + o3 + e4.c[2]*11 + s4.c[2] + s4.a + n4)")
+            self.emit(ind, "}")
+        elif k == 11:
+            self.emit(ind, "sink(sumv(%s & 15) + sumv(1, %s & 7, 3) + sumv(2, []int{4, %s & 3, 6}...))" % (a, b, a))
+        elif k == 12:
+            self.emit(ind, "{")
+            self.emit(ind + 1, "var memo [16]int")
+            self.emit(ind + 1, "sink(fact(%s & 7) + fibm(%s & 15, &memo))" % (a, b))
+            self.emit(ind, "}")
+        elif k == 13:
+            self.emit(ind, "{")
+            self.emit(ind + 1, "p := Seg{a: Pt{%s & 7, 2}, b: Pt{3, %s & 7}, tag: [2]int8{1, 2}}" % (a, b))
+            self.emit(ind + 1, "q := p")
+            self.emit(ind + 1, "q.b.y++")
+            self.emit(ind + 1, "r := p")
+            self.emit(ind + 1, "an := struct{ u, w int }{%s & 3, 1}" % a)
+            self.emit(ind + 1, "sink(b2i(p == q) + b2i(p == r)*2 + b2i(p.a == q.a)*4 + b2i(an == struct{ u, w int }{1, 1})*8 + b2i(p.tag == [2]int8{1, 2})*16)")
+            self.emit(ind, "}")
+        elif k == 14:
+            self.emit(ind, "{")
+            self.emit(ind + 1, "q, r := divmod(%s, %s & 15)" % (a, b))
+            self.emit(ind + 1, "var e1, e2 any = V(%s & 3), V(%s & 3)" % (a, b))
+            self.emit(ind + 1, "var i1 I = V(1)")
+            self.emit(ind + 1, "sink(q*3 + r + b2i(e1 == e2) + b2i(i1 == I(V(1)))*2 + b2i(e1 != nil)*4)")
+            self.emit(ind, "}")
+        elif k == 15:
+            # shadowing and block scopes
+            x = self.fresh("x")
+            self.emit(ind, "%s := %s & 63" % (x, a))
+            self.emit(ind, "{")
+            self.emit(ind + 1, "%s := %s + 1" % (x, x))
+            self.emit(ind + 1, "if %s := %s * 2; %s > 10 {" % (x, x, x))
+            self.emit(ind + 2, "sink(%s)" % x)
+            self.emit(ind + 1, "}")
+            self.emit(ind + 1, "sink(%s)" % x)
+            self.emit(ind, "}")
+            self.emit(ind, "sink(%s)" % x)
         else:
             n = self.fresh("n")
             self.emit(ind, "%s := 0" % n)
@@ -516,6 +648,13 @@ def gen_program(seed, nfuncs=12, arr_mut=True):
     g = Gen(seed, arr_mut)
     for i in range(nfuncs):
         g.function(i)
+    # every feature snippet once, so that no language feature depends on the dice
+    g.emit(0, "func tour(p0, p1 int) (res int) {")
+    for k in range(17):
+        g.feature(1, ["p0", "p1"], k)
+    g.emit(1, "return p0 ^ p1")
+    g.emit(0, "}")
+    g.emit(0, "")
     g.emit(0, "func main() {")
     rr = random.Random(seed + 7)
     for i in range(nfuncs):
@@ -523,6 +662,8 @@ def gen_program(seed, nfuncs=12, arr_mut=True):
             a = rr.choice([0, 1, -1, 7, 100, 255, -128, 65536, (1 << 31) - 1, rr.randrange(-1000, 1000)])
             b = rr.choice([0, 1, -1, 3, 64, 1000, -77, rr.randrange(-1000, 1000)])
             g.emit(1, 'show("fn%d", fn%d(%d, %d))' % (i, i, a, b))
+    for a, b in ((0, 0), (3, 5), (-7, 1000), (255, -1)):
+        g.emit(1, 'show("tour", tour(%d, %d))' % (a, b))
     g.emit(1, 'println("acc", acc)')
     g.emit(0, "}")
     return PRELUDE + "\n" + "\n".join(g.out) + "\n" + SUFFIX
